@@ -370,6 +370,10 @@ def _reuse_scenarios(quick, seed):
     # app memory changed between dumps
     scns.append({"id": "reuse/app-moves", "target": tgt(1), "writer": {"blamed": "main", "app_memory": [{"addr": {"region": "app0"}, "len": 3000}]},
                  "history": [{"op": "dump"}, {"op": "set", "writer": {"app_memory": [{"addr": {"region": "app1"}, "len": 64}]}}, {"op": "dump"}, {"op": "set", "writer": {"app_memory": []}}, {"op": "dump"}]})
+    # options that stay configured must be honoured by every dump: the caller's entry address (module order), the caller's mappings
+    scns.append({"id": "reuse/direct-entry", "target": tgt(1), "writer": {"blamed": "main", "direct_auxv": {"entry": {"module": "libc.so.6", "off": 0x100}}}, "history": [{"op": "dump"}] * 3})
+    scns.append({"id": "reuse/user-mappings", "target": tgt(1), "writer": {"blamed": "main", "user_mappings": [{"start": {"region_map": "code"}, "size": 8192, "name": "/user/lib code.so", "id_hex": "00112233445566778899aabbccddeeff"}]},
+                 "history": [{"op": "dump"}] * 3})
     # principal mapping given, then withdrawn
     scns.append({"id": "reuse/principal-withdrawn", "target": tgt(2), "writer": {"blamed": "main", "skip": True, "principal": {"region": "code", "off": 64}},
                  "history": [{"op": "dump"}, {"op": "set", "writer": {"principal": "unset"}}, {"op": "dump"}]})
@@ -636,6 +640,17 @@ def _skip_scenarios(quick, seed):
         if k % 2 == 0:
             w["crash_context"] = {"sp": {"thread_sp": 0}, "ip": rnd.choice([{"region_map": "prin", "off": 0}, {"region_map_end": "prin", "off": 0}, {"region_map_end": "prin", "off": -1}, "0x5000"])}
         scns.append({"id": f"skip/{k}", "target": tgt, "writer": w})
+    # skip-if-unreferenced together with a size limit (stacks of threads 20.. are shortened to the 2 KiB chunk holding the stack
+    # pointer before they are scanned): references and non-references close above stack pointers on both sides of the chunk boundary
+    for lim, san in ([(1000, False), (300000, True)] if quick else [(l, s_) for l in (1000, 200000, 300000, 10**9) for s_ in (False, True)]):
+        threads = []
+        for i in range(30):
+            t = {"mode": "pause", "stack_pages": 1 + i % 2, "sp_off": [0x100, 0x900, 0xb00, 0x700, 0x800][i % 5] + 4096 * (i % 2)}
+            if i % 3 != 2:
+                t["words"] = [[0x40, {"region": "prin", "off": 64 + 8 * i}]]
+            threads.append(t)
+        w = {"blamed": {"slot": 1}, "skip": True, "principal": {"region": "prin", "off": 4000}, "size_limit": lim, "sanitize": san}
+        scns.append({"id": f"skip/limit{lim}/{'sanitize' if san else 'plain'}", "target": {"threads": threads, "regions": [{"name": "prin", "len": 8192, "exec": True}]}, "writer": w})
     scns.append({"id": "skip/no-mapping", "target": dumps.base_target(3), "writer": {"blamed": "main", "skip": True, "principal": "0x6000"}})
     return scns
 
